@@ -20,6 +20,9 @@ CHECKS = {
  "C05": dict(cat="exploration", tech="bounded-exhaustive enumeration of tables x special coordinate vectors x entry points with ASan/UBSan/assertions as oracle",
    text="Every combination of a table alphabet (orders 0..5, minimal knot counts, knot padding produced by direct construction, read_fits_mem, convolve and fit; 1..9 dimensions) with special coordinate classes per axis (NaN, infinities, DBL_MAX, denormal, every knot, +-1ulp around the range ends, far outside) is pushed through lookup, operator(), all derivative masks, both gradient entry points (guard words; must refuse d>=8), arbitrary-order derivatives up to order+1, evaluator objects and the C wrappers in an instrumented build with assertions on; a crash is attributed to the exact case.",
    note="trusted: ASan/UBSan of g++ 12; only photospline's own code is instrumented", ref="4/C05"),
+ "C06": dict(cat="exploration", tech="bounded-exhaustive enumeration of tables x serialisation options, checked by library round trip and by an independent FITS reader and writer",
+   text="Every combination of dimension count 1..9 with pairwise different axis lengths, order pattern, seeded or extreme coefficient values (+-0, denormal, FLT_MAX, inf, NaN payload), default or custom extents, periods or none, 0/1/5/40 auxiliary keys and disk or memory back end is written and read back by the library (C++ and C), compared field by field, parsed by an independent reader that checks the documented layout byte for byte, and re-created by an independent writer that the library must read identically; legacy layouts (single ORDER key, no EXTENTS/PERIOD, integer and double coefficient images) and the ten shipped files (recorded digests) are included.",
+   note="trusted: ref/fits_ref.hpp (independent of cfitsio); periods are compared to 1e-13 because cfitsio stores header doubles with 15 digits and the property does not list them as exact", ref="4/C06"),
 }
 
 def cmd(pid, tier):
